@@ -476,6 +476,11 @@ Proof.
 Qed.
 Print Assumptions memberships_invariant_ingredients.
 
+Theorem guess_regularizing_exec_agrees :
+  forall KF xs, gr_mean_x xs == gr_mean xs /\ gr_scale_x KF xs == gr_scale KF xs.
+Proof. intros KF xs. split; [apply gr_mean_x_eq|apply gr_scale_x_eq]. Qed.
+Print Assumptions guess_regularizing_exec_agrees.
+
 (* ===================================================================== 7. BIC parameter count *)
 (* the expressions translated from GMM.bic count exactly the free parameters,
    for every k and every dimension, for both precision types *)
